@@ -406,11 +406,15 @@ def run(ctx):
     # three-way correspondence inside Coq: the first ncoq_total generated documents and the small shipped files
     allc = cases + shipped
     coq_ids = list(range(ncoq_total)) + [len(cases) + k for k, c in enumerate(shipped) if len(c['xml']) < 8000]
-    terms, idx, tables = [], [], []
+    terms, idx, tables, encode_errors = [], [], [], []
     for i in coq_ids:
         if 'snap' not in results[i]:
             continue
-        t, table = coq_case(allc[i]['xml'].encode('utf-8'), results[i]['snap'])
+        try:
+            t, table = coq_case(allc[i]['xml'].encode('utf-8'), results[i]['snap'])
+        except Exception as e:  # noqa  (a snapshot the encoder cannot express: the direct oracle judges it)
+            encode_errors.append({'case_index': i, 'error': 'snapshot not encodable as a Coq view: %r' % (e,)})
+            continue
         terms.append(t)
         idx.append(i)
         tables.append(table)
@@ -445,7 +449,7 @@ def run(ctx):
                          'corpus_cases': ncorpus,
                          'documents_that_failed_to_load': sum(1 for r in results if 'snap' not in r)},
         'mismatches': mismatches,
-        'errors': errors,
+        'errors': errors + encode_errors[:3],
     }
 
     def search(mm):
